@@ -1,6 +1,8 @@
 """C09 - scope completion fires exactly once, after the whole subtree has been left."""
-from harness.legs import cfg_text, leg_m, leg_mutant, leg_r
-from props.metrics_common import MetricsDriver
+import random
+
+from harness.legs import cfg_text, leg_m, leg_mutant, leg_r, leg_t_gen
+from props.metrics_common import MetricsDriver, gen_trace, trace_kw
 
 SPEC = "Metrics"
 MANIFEST = dict(
@@ -45,6 +47,11 @@ def run(rep, work, tier, seed):
     wide = dict(NTasks=3, N=3, MaxOps=7 if tier == "quick" else 8, MaxRec=0, MaxT=0, MTypes=["Cat"], Kinds=["s"], Bug="none")
     leg_r(rep, work, SPEC, f"conf_wide_{tier}", cfg_text(wide, invariants=INVS), lambda: MetricsDriver(["Cat"]),
           internal=INTERNAL)
+    # leg T: random programs over 4 tasks / 8 scopes recorded from the real library, validated by a trace module
+    # generated from Metrics.tla (callbacks run as silent internal steps between the logged events)
+    rnd = random.Random(seed * 19 + 5)
+    traces = [gen_trace(rnd, ["Cat"], records=False) for _ in range(120 if tier == "quick" else 1500)]
+    leg_t_gen(rep, work, SPEC, f"trace_{tier}", traces, **trace_kw(["Cat"]))
     rep.assumptions += [
         "scopes are created and entered at once (a scope object that is constructed and never entered keeps its "
         "parent's completion pending forever - observed, not judged by C09)",
